@@ -65,7 +65,7 @@ class LoopAbort(Exception):
     pass
 
 
-def _snapshot_writes(before, after):
+def _snapshot_writes(before, after, ex=None):
     """names / (oid, field) whose value object changed between two states"""
     w = set()
     for n, v in after.env.items():
@@ -81,8 +81,11 @@ def _snapshot_writes(before, after):
     for g, v in after.ghost.items():
         if g not in before.ghost or before.ghost[g] is not v:
             w.add(('ghost', g))
+    chk = getattr(ex, 'list_semantically_changed', None)
     for lid, v in after.lists.items():
         if lid in before.lists and before.lists[lid] is not v:
+            if chk and not chk(before, after, lid):
+                continue      # only the representation was refined (segments split, elements materialised)
             w.add(('list', lid))
     for f, v in after.farr.items():
         if f not in before.farr or before.farr[f] is not v:
@@ -183,7 +186,7 @@ def run_cut_loop(ex, stmt, st, key, lc, guard_fn, bind_fn, advance_fn, label):
                     for s_e, oc, val in ex.exec_block(stmt.body, s_b):
                         if oc in (Outcome.NEXT, Outcome.CONT):
                             # only writes on paths that return to the loop head need to be havoc'ed there
-                            more |= _snapshot_writes(pre, s_e) - hset
+                            more |= _snapshot_writes(pre, s_e, ex) - hset
                         if oc in (Outcome.NEXT, Outcome.CONT):
                             advance_fn(s_e)
                             for j, inv in enumerate(invs):
